@@ -160,6 +160,9 @@ class SteadyDetonationReactionZone(ExactSolver):
 
         xsolution = dict()
 
+        # positions come first, as for every other solver (plot_all relies on it)
+        xsolution['position'] = xvec
+
         varnames = ['pressure','velocity','density','sound_speed',
                         'reaction_progress','position_relative']
 
@@ -204,12 +207,6 @@ class SteadyDetonationReactionZone(ExactSolver):
         for var in varnames:
             interpfcn = interp1d(tsolution['position'][::-1],tsolution[var][::-1])
             xsolution[var][jmask] = interpfcn(xvec[jmask])
-
-        #
-        # assign xvec into the solution object
-        #
-
-        xsolution['position'] = xvec
 
         return ExactSolution(xsolution.values(),
                              names=list(xsolution.keys()))
